@@ -188,6 +188,54 @@ def evaluation_effects(v):
     return E, balanced
 
 
+def check_alias_safe_gates(chk, v, E, evalfns):
+    """R3: every gate consumes its inputs before the first write to its output (so the output may be one of the inputs)"""
+    vn = v.name
+    # R3 alias-safe gates
+    gates = [f for f in evalfns if GATE.match(f.name) and f.name not in ("bootsSymDecrypt",)]
+    chk.set_count("R3.gates", len(gates))
+    for f in gates:
+        effs, _ = E.effects_of(f.usr)
+        out_name = f.params[0]["n"]
+        inputs = [p["n"] for p in f.params[1:] if "LweSample" in p["t"]]
+        written_at = None
+        problem = None
+        for x in flat(effs):
+            if x["e"] == "store":
+                r = sym.root_of(x["lv"])
+                if r == sym.sym(out_name) and written_at is None:
+                    written_at = x["l"]
+                reads = {a[1] for a in sym.atoms(x["val"]) if a[0] == "sym"} | \
+                        {sym.root_of(a)[1] for a in sym.atoms(x["val"]) if a[0] in ("fld", "idx") and sym.root_of(a) and sym.root_of(a)[0] == "sym"}
+                if written_at is not None and written_at != x["l"] and reads & set(inputs):
+                    problem = "input %s read at line %s after the output was written at line %s" % (sorted(reads & set(inputs)), x["l"], written_at)
+            elif x["e"] == "call":
+                arg_roots = []
+                for a in x["args"]:
+                    r = sym.root_of(a) if a is not None else None
+                    arg_roots.append(r[1] if r is not None and r[0] == "sym" else None)
+                reads_inputs = [r for r in arg_roots if r in inputs]
+                m = E.mod(x["usr"]) if x.get("usr") in v.defs else {}
+                writes_out = any(rk[0] == "param" and rk[1] < len(arg_roots) and arg_roots[rk[1]] == out_name for (rk, fl) in m)
+                if written_at is not None and reads_inputs:
+                    problem = "input %s passed to %s at line %s after the output was written at line %s" % (
+                        reads_inputs, x["name"], x["l"], written_at)
+                if writes_out and reads_inputs:
+                    callee = v.defs.get(x["usr"])
+                    if callee is not None and elementwise_same_index(v, callee):
+                        pass
+                    else:
+                        problem = "%s at line %s writes the output while reading input %s and is not element-wise same-index" % (
+                            x["name"], x["l"], reads_inputs)
+                if writes_out and written_at is None:
+                    written_at = x["l"]
+            if problem:
+                break
+        chk.require(problem is None, "R3", "%s reads its inputs only before writing its output" % f.name, where=f.where,
+                    ok="output first written at line %s; inputs %s consumed before" % (written_at, inputs),
+                    bad=problem or "", variant=vn)
+
+
 def run(chk):
     prog = Program()
     chk.explanation = (
@@ -269,46 +317,4 @@ def run(chk):
                     badcalls.append("%s calls %s at %s:%s" % (g.q, n["callee"], g.file, n["l"]))
         chk.require(not badcalls, "R2", "no clock, environment or libc RNG call is reachable from the evaluation API",
                     ok="%d reachable functions inspected" % len(reach), bad="; ".join(badcalls[:4]), variant=vn)
-        # R3 alias-safe gates
-        gates = [f for f in evalfns if GATE.match(f.name) and f.name not in ("bootsSymDecrypt",)]
-        chk.set_count("R3.gates", len(gates))
-        for f in gates:
-            effs, _ = E.effects_of(f.usr)
-            out_name = f.params[0]["n"]
-            inputs = [p["n"] for p in f.params[1:] if "LweSample" in p["t"]]
-            written_at = None
-            problem = None
-            for x in flat(effs):
-                if x["e"] == "store":
-                    r = sym.root_of(x["lv"])
-                    if r == sym.sym(out_name) and written_at is None:
-                        written_at = x["l"]
-                    reads = {a[1] for a in sym.atoms(x["val"]) if a[0] == "sym"} | \
-                            {sym.root_of(a)[1] for a in sym.atoms(x["val"]) if a[0] in ("fld", "idx") and sym.root_of(a) and sym.root_of(a)[0] == "sym"}
-                    if written_at is not None and written_at != x["l"] and reads & set(inputs):
-                        problem = "input %s read at line %s after the output was written at line %s" % (sorted(reads & set(inputs)), x["l"], written_at)
-                elif x["e"] == "call":
-                    arg_roots = []
-                    for a in x["args"]:
-                        r = sym.root_of(a) if a is not None else None
-                        arg_roots.append(r[1] if r is not None and r[0] == "sym" else None)
-                    reads_inputs = [r for r in arg_roots if r in inputs]
-                    m = E.mod(x["usr"]) if x.get("usr") in v.defs else {}
-                    writes_out = any(rk[0] == "param" and rk[1] < len(arg_roots) and arg_roots[rk[1]] == out_name for (rk, fl) in m)
-                    if written_at is not None and reads_inputs:
-                        problem = "input %s passed to %s at line %s after the output was written at line %s" % (
-                            reads_inputs, x["name"], x["l"], written_at)
-                    if writes_out and reads_inputs:
-                        callee = v.defs.get(x["usr"])
-                        if callee is not None and elementwise_same_index(v, callee):
-                            pass
-                        else:
-                            problem = "%s at line %s writes the output while reading input %s and is not element-wise same-index" % (
-                                x["name"], x["l"], reads_inputs)
-                    if writes_out and written_at is None:
-                        written_at = x["l"]
-                if problem:
-                    break
-            chk.require(problem is None, "R3", "%s reads its inputs only before writing its output" % f.name, where=f.where,
-                        ok="output first written at line %s; inputs %s consumed before" % (written_at, inputs),
-                        bad=problem or "", variant=vn)
+        check_alias_safe_gates(chk, v, E, evalfns)
